@@ -50,6 +50,13 @@ theorem C10_literals_preserved (root : Node) (d : Twin.Doc) (h : literalsCertifi
     litText (best w 0 [⟨0, .brk, d.fam u⟩]) = (specLit (prepare root)).toList :=
   certified_literals_best root d h u w
 
+/-- T10.4r: with import reordering on, the literals are those of the tree with the import items in
+the order `importOrder` gives them. -/
+theorem C10_literals_preserved_reorder (cfg : PConfig) (root : Node) (d : Twin.Doc)
+    (h : literalsCertifiedR cfg root d = true) (u w : Nat) :
+    litText (best w 0 [⟨0, .brk, d.fam u⟩]) = (specLit (reorderTree cfg (prepare root))).toList :=
+  certified_literalsR cfg root d h u .brk _ (pretty_lay w _)
+
 theorem C10_literals_preserved_all_layouts (root : Node) (d : Twin.Doc) (h : literalsCertified root d = true)
     (u : Nat) (m : Mode) (xs : List Atom) (hl : Lay m (d.fam u) xs) :
     litText xs = (specLit (prepare root)).toList :=
